@@ -13,7 +13,7 @@ import re
 
 import common_rq
 import common_std
-from extract import ExtractionError
+from extract import ExtractionError, code_tokens, match_brace
 
 TRANSFORMS = "prqlc/prqlc/src/semantic/resolver/transforms.rs"
 GEN_EXPR = "prqlc/prqlc/src/sql/gen_expr.rs"
@@ -167,7 +167,17 @@ def build(X):
     rie = X.fn(TRANSFORMS, "range_is_empty")
     rie.ret_name("r")
     rie.contract("ensures r == !non_empty(*range), // @RE1")
-    wb = X.slice(TRANSFORMS, "resolve_special_func", "let (kind, start, end) = if expanding {", "};", name="window_bounds_slice")
+    # everything between the end of `let range = { .. };` (the last parameter that is read) and the end of `let (kind, start, end) = ..;`
+    wb = X.slice(TRANSFORMS, "resolve_special_func", "let range = {", "let (kind, start, end) =", name="window_bounds_slice", end_stmt=True)
+    wtoks = code_tokens(wb.text)
+    kb = next(i for i, t in enumerate(wtoks) if wb.text[t[1]] == "{")
+    ke = match_brace(wb.text, wtoks, kb)
+    after = wb.text[wtoks[ke][2]:]
+    if not after.lstrip().startswith(";"):
+        raise ExtractionError("resolve_special_func: `let range = { .. };` does not end where the unit expects it")
+    wb.text = after.lstrip()[1:].lstrip()
+    if "let (kind, start, end) =" not in wb.text:
+        raise ExtractionError("resolve_special_func: `let (kind, start, end) = ..` does not follow `let range = { .. };`")
     wb.text = ("pub fn window_bounds_slice(expanding: bool, rolling: i64, rows: (Option<i64>, Option<i64>), range: (Option<i64>, Option<i64>))\n"
                "    -> (r: (WindowKind, Option<i64>, Option<i64>))\n"
                "    ensures\n"
